@@ -2,6 +2,7 @@ import PsModel.Util.Sexp
 import PsModel.Model.C03
 import PsModel.Spec.C03
 import PsModel.Spec.C03Scope
+import PsModel.Spec.C03Cells
 /-! line-protocol front end of the C03 binding model:
 `C03 (bind (posonly…) (args…) ndefaults ((k hasD)…) vararg kwarg (argvals…) ((key val)…))` → `model=… spec=…` -/
 namespace PsModel.C03
@@ -64,8 +65,88 @@ end
 def showNames (xs : List String) : String :=
   ",".intercalate (xs.eraseDups.toArray.qsort (· < ·)).toList
 
+/-! ### cells: `C03 (cells (ginit (x 3)…) (def f (params…) (stmts…)) (args 1 2) (watch x y))` -/
+namespace Cells
+
+def sexpr? : Sexp → Option SExpr
+  | .atom "nil" => some .nil
+  | .list [.atom "lit", n] => n.int?.map .lit
+  | .list [.atom "var", .atom x] => some (.var x)
+  | .list [.atom "addv", .atom x, k] => k.int?.map (.addv x)
+  | _ => none
+
+def expr? : Nat → Sexp → Option Expr
+  | 0, _ => none
+  | f + 1, x =>
+    match sexpr? x with
+    | some s => some (.simple s)
+    | none =>
+      match x with
+      | .list [.atom "add", e, k] => do pure (.add (← expr? f e) (← k.int?))
+      | .list [.atom "T", .atom tag, e] => (expr? f e).map (.trace tag)
+      | .list [.atom "call", fn, .list as] => do pure (.call (← expr? f fn) (← Sexp.mapM? sexpr? as))
+      | .list [.atom "comp", .atom v, .list its, elt] => do pure (.comp v (← Sexp.mapM? sexpr? its) (← sexpr? elt))
+      | .list [.atom "args", e] => (expr? f e).map .argsOf
+      | _ => none
+
+mutual
+def stmt? : Nat → Sexp → Option Stmt
+  | 0, _ => none
+  | f + 1, x =>
+    match x with
+    | .list [.atom "assign", .atom v, e] => (expr? 64 e).map (.assign v)
+    | .list [.atom "aug", .atom v, e] => (expr? 64 e).map (.aug v)
+    | .list [.atom "expr", e] => (expr? 64 e).map .expr
+    | .list [.atom "del", .atom v] => some (.del v)
+    | .list [.atom "ret", e] => (expr? 64 e).map .ret
+    | .list [.atom "global", .atom v] => some (.declG v)
+    | .list [.atom "nonlocal", .atom v] => some (.declN v)
+    | .list [.atom "def", .atom g, ps, body] => do pure (.defn g (← strs? ps) (← stmts? f body))
+    | .list [.atom "handler", .atom v, e, body] => do pure (.handler v (← expr? 64 e) (← stmts? f body))
+    | .list [.atom "tryne", b, h] => do pure (.tryNE (← stmts? f b) (← stmts? f h))
+    | .list [.atom "if", e, body] => do pure (.ifT (← expr? 64 e) (← stmts? f body))
+    | _ => none
+def stmts? : Nat → Sexp → Option (List Stmt)
+  | 0, _ => none
+  | f + 1, .list xs => Sexp.mapM? (stmt? f) xs
+  | _, _ => none
+end
+
+def showVal : Val → String
+  | .int n => toString n
+  | .none => "None"
+  | .fn _ => "<fn>"
+  | .exc n => s!"ValueError({n})"
+  | .args n => s!"({n},)"
+  | .ints l => "[" ++ ", ".intercalate (l.map toString) ++ "]"
+
+def showErr : Err → String
+  | .name => "NameError" | .type => "TypeError" | .fuel => "FUEL" | .unsupported => "UNSUPPORTED"
+
+def showObs (o : Obs) : String :=
+  let log := ";".intercalate (o.trace.map fun (p : String × Val) => p.1 ++ "=" ++ showVal p.2)
+  match o.result with
+  | .exc e => log ++ "|exc:" ++ showErr e
+  | .vals l => log ++ "|" ++ ",".intercalate (l.filterMap fun (p : String × Option Val) => p.2.map fun v => p.1 ++ "=" ++ showVal v)
+
+def prog? : Sexp → Option Prog
+  | .list [.list (.atom "ginit" :: gs), .list [.atom "def", .atom g, ps, body], .list (.atom "args" :: as), .list (.atom "watch" :: ws)] => do
+    let gi ← Sexp.mapM? (fun p => match p with | .list [.atom k, v] => v.int?.map fun n => (k, n) | _ => none) gs
+    pure { ginit := gi, main := ⟨g, ← strs? ps, ← stmts? 64 body⟩, args := ← Sexp.mapM? Sexp.int? as, watch := ← Sexp.mapM? Sexp.str? ws }
+  | _ => none
+
+def handle (rest : List Sexp) : String :=
+  match prog? (.list rest) with
+  | some p =>
+    -- the line is the property's text with underscores for blanks so that it stays one token each
+    s!"model={(showObs (run (PS.disc Current.cellCfg) 4000 p)).replace " " "_"} spec={(showObs (run Py.disc 4000 p)).replace " " "_"}"
+  | none => "err parse"
+
+end Cells
+
 def handle (x : Sexp) : String :=
   match x with
+  | .list (.atom "cells" :: rest) => Cells.handle rest
   | .list [.atom "bind", po, ar, nd, ko, va, kwa, avals, kws] =>
     match strs? po, strs? ar, nd.nat?,
           Sexp.listOf? (fun p => match p with | .list [.atom k, d] => d.bool?.map fun b => (k, b) | _ => none) ko,
